@@ -1,6 +1,9 @@
 package main
 
-import "verif/internal/report"
+import (
+	"verif/internal/report"
+	"verif/internal/visitors"
+)
 
 // Rules that changed their method late in the fifth session (DESIGN.md §12): the text the manifest and the
 // evidence carry.
@@ -25,6 +28,13 @@ func init() {
 	extendProp("C14", "linear (see C02): a name the grammar parsed must be in the tree to be resolved - a production that takes a carrier apart and does not place one of its fields loses that name (round 7 seed C14-20: `Hello::say as print` built without the Trait of its method reference, in one of four sibling productions). name-sinks/guard: in a resolver method the resolution of the name in a slot is skipped only by a test of that slot itself - an early return or an enclosing test on another slot leaves exactly the nodes that lack the other slot unresolved (round 7 seed C14-21: `if n.Name == nil { return }` ahead of the resolution of Extends and Implements: anonymous classes).",
 		[]report.Floor{{Rule: "linear", What: "productions", Min: 1000}},
 		func(c *Ctx) { defer c.cleanup(); c.flows_("linear") })
+	extendProp("C17", "fmt-token-text: no function of the formatter stores into the Value, ID or Position of a token that came with the tree (reached through the node a method is given); only a token the formatter keeps in a field of its own (the last semicolon it made) is edited. A kept token is kept because its text is the node's value: re-spelling it prints a program whose re-parse has other values (round 9 seed C17-19: `__line__` upper-cased in the token, `Value` left alone).",
+		[]report.Floor{{Rule: "fmt-token-text", What: "stores", Min: 1}, {Rule: "fmt-token-text", What: "functions", Min: 150}},
+		func(c *Ctx) {
+			if p, _, ok := c.RepoProgram(false); ok {
+				c.Add(visitors.FmtTokenText(p, "pkg/visitor/formatter"))
+			}
+		})
 	for _, id := range []string{"C09", "C03", "C08"} {
 		extendProp(id, "order-domain/New: version.New is evaluated from source on 34 strings around `<number>.<number>` (signs, blanks, hex, underscores, overflow, missing and extra parts) against the rule \"exactly one dot separates two base-10 numbers that fit 64 bits\"; the provenance of the two fields (ParseUint of segment 0 and 1) is read only when the function cannot be evaluated.", nil, none)
 	}
